@@ -23,7 +23,8 @@ ENGINE_TRUSTED = [
 
 
 # signature of a root-cause finding -> short tag appended to the signatures of its downstream symptoms
-ROOT_CAUSES = {"ack:reentrant-relock-answered-before-acknowledgement": "reentrant-ack-relock"}
+ROOT_CAUSES = {"ack:reentrant-relock-answered-before-acknowledgement": "reentrant-ack-relock",
+               "ack:answered-succed-but-left-ack-pending": "never-persisted-ack-lock"}
 
 
 def theorems_of(pid):
